@@ -232,6 +232,9 @@ func (g *Gen) attr(name string, depth int, top bool) *AttrSpec {
 	if g.P.Hooks && g.chance(0.35) {
 		a.Cons = &ConsSpec{K: g.pick([]string{"any", "littype"}), Type: "string"}
 		a.Hooks = []string{g.pick([]string{"h1", "h2", "hmissing"})}
+		if g.chance(0.4) {
+			a.Hooks = g.pick2([]string{"h1", "h2"}, []string{"h2", "h1"})
+		}
 	}
 	if top && g.chance(0.3) {
 		st := []StepSpec{{K: "static", Name: g.pick([]string{"attr", "top"})}, {K: "attrname"}}
@@ -552,6 +555,13 @@ func (g *Gen) blockAddr(b *BlockSpec) {
 
 // ---------------------------------------------------------------------------
 // functions
+
+func (g *Gen) pick2(a, b []string) []string {
+	if g.chance(0.5) {
+		return a
+	}
+	return b
+}
 
 func (g *Gen) functions() []*FuncSpec {
 	base := []*FuncSpec{
